@@ -126,6 +126,11 @@ def check_spec(spec, meta, index):
                             viols.append(C.viol(f"exception:{jtag}:{S}:{out['exc_type']}:{out.get('where', '')}", f'sum_product/backward raised {out["exc"]}', context=ctx, traceback=out['tb']))
                             continue
                         if out['warnings']:      # the caller has been warned: an unconverged value is allowed
+                            fin = zref[torch.isfinite(zref)]
+                            if f64 and rec and (not fin.numel() or float(fin.abs().max()) < 1e3):
+                                # ... but not here: spectral radius <= 0.9, kmax = 10000, float64 values far from where rounding
+                                # could keep the change above tol -- a method that exhausts this budget is not converging
+                                viols.append(C.viol(f'full-budget-exhausted:{jtag}:{S}:{method}', f'kmax=10000 was not enough on a grammar of spectral radius {ref.get("rho")}: {out["warnings"][:1]}', context=ctx))
                             continue
                         z, grads = out['value']
                         obs['compared:' + method] = obs.get('compared:' + method, 0) + 1
